@@ -8,8 +8,10 @@
    pipeline model is tied to the implementation byte for byte. *)
 From Coq Require Import String NArith List Bool.
 From RC Require Import lib.Result lib.Bytes model.Layout model.Flags model.ChkIo model.TrigTable model.RichCodec model.RichIo
-  proofs.Flags_proofs proofs.C03_proofs proofs.C10_proofs proofs.C08_proofs proofs.C03_strings model.Str model.StrEditor gen.GenFlags.
+  proofs.Flags_proofs proofs.C03_proofs proofs.C10_proofs proofs.C08_proofs proofs.C03_strings proofs.C02_entries model.Str model.StrEditor gen.GenFlags gen.GenTrig spec.SpecTrig.
 Import ListNotations.
+Local Open Scope string_scope.
+Local Open Scope list_scope.
 Local Open Scope N_scope.
 
 (* whatever number sits in a flags field, the bits the format defines survive the cycle (reserved bits are dropped) *)
@@ -52,3 +54,57 @@ Theorem C02_unedited_save_emits_the_loaded_string_table :
     nth_error d' i = Some (DStr "STR " 2 m).
 Proof. exact unedited_save_emits_the_loaded_str. Qed.
 Print Assumptions C02_unedited_save_emits_the_loaded_string_table.
+
+(* "every numeric setting keeps its value, every string reference resolves to the same text", one trigger ACTION of any
+   registered type through an unedited load (context cx) and save (context cx'): the record written back holds the same type
+   number, the same five flag bits, and for every argument field a number that is the re-encoding of what was decoded from
+   it (the play time of a sound being written back as it was read); the fields the type does not use are written as 0
+   (recorded finding unused-fields-zeroed) *)
+Theorem C02_a_supported_action_keeps_its_values :
+  forall cx cx' v key args fl v',
+    decode_entry_of cx gen_action_table "TriggerActionId" "_action_id" action_flags_codec action_record_fields v
+      = Ok (Some (ERich key args fl)) ->
+    encode_entry_of cx' gen_action_table action_flags_codec action_record_fields (ERich key args fl) = Ok v' ->
+    (vint "_flags" v < 256)%N ->
+    exists te s,
+      find_entry key gen_action_table = Some te /\ In s spec_action_table /\ se_id s = key /\
+      vint "_action_id" v' = vint "_action_id" v /\
+      vint "_flags" v' = (vint "_flags" v mod 2 ^ 5)%N /\
+      (forall a c f, In (a, c, f) (te_dec te) ->
+         exists x, dec_arg cx c (vint f v) = Ok x /\
+                   (enc_arg cx' c x = Ok (vint f v') \/ (c = CRaw /\ vint f v' = vint f v))) /\
+      (forall f, In f action_record_fields -> f <> "_flags" -> expected_src s f = EZero -> vint f v' = 0%N).
+Proof. exact action_values_survive. Qed.
+Print Assumptions C02_a_supported_action_keeps_its_values.
+
+Theorem C02_a_supported_condition_keeps_its_values :
+  forall cx cx' v key args fl v',
+    decode_entry_of cx gen_condition_table "TriggerConditionId" "_condition_id" condition_flags_codec condition_record_fields v
+      = Ok (Some (ERich key args fl)) ->
+    encode_entry_of cx' gen_condition_table condition_flags_codec condition_record_fields (ERich key args fl) = Ok v' ->
+    (vint "_flags" v < 256)%N ->
+    exists te s,
+      find_entry key gen_condition_table = Some te /\ In s spec_condition_table /\ se_id s = key /\
+      vint "_condition_id" v' = vint "_condition_id" v /\
+      vint "_flags" v' = (vint "_flags" v mod 2 ^ 5)%N /\
+      (forall a c f, In (a, c, f) (te_dec te) ->
+         exists x, dec_arg cx c (vint f v) = Ok x /\
+                   (enc_arg cx' c x = Ok (vint f v') \/ (c = CRaw /\ vint f v' = vint f v))) /\
+      (forall f, In f condition_record_fields -> f <> "_flags" -> expected_src s f = EZero -> vint f v' = 0%N).
+Proof. exact condition_values_survive. Qed.
+Print Assumptions C02_a_supported_condition_keeps_its_values.
+
+(* ... where re-encoding what was decoded gives the SAME number for plain numbers and enumeration members *)
+Theorem C02_numeric_arguments_keep_their_number :
+  forall cx cx' c n x n',
+    (c = CRaw \/ exists E, c = CEnum E) -> dec_arg cx c n = Ok x -> enc_arg cx' c x = Ok n' -> n' = n.
+Proof. exact numeric_codec_same_number. Qed.
+Print Assumptions C02_numeric_arguments_keep_their_number.
+
+(* ... and, for a string argument, a number that resolves in the table being written to the same text *)
+Theorem C02_string_arguments_keep_their_text :
+  forall cx cx' n x n',
+    (N.of_nat (length (sl_by_id (cx_str cx'))) <= 1000000)%N ->
+    dec_arg cx CStr n = Ok x -> enc_arg cx' CStr x = Ok n' -> str_by_id (cx_str cx') n' = str_by_id (cx_str cx) n.
+Proof. exact string_codec_same_text. Qed.
+Print Assumptions C02_string_arguments_keep_their_text.
